@@ -104,10 +104,13 @@ func (e *Engine) finishContracts() (err error) {
 	}
 	for _, a := range e.axiomDecls {
 		st := e.newState()
+		st.noNames = true
 		ctx := &SpecCtx{s: st, vars: map[string]Val{}, pkg: a.Pkg, what: "axiom " + a.Name}
 		t := ctx.evalBool(a.X)
-		if len(st.cmds) > 0 {
-			return fmt.Errorf("axiom %s depends on program state", a.Name)
+		for _, c := range st.cmds {
+			if strings.HasPrefix(c, "(declare-const") {
+				return fmt.Errorf("axiom %s depends on program state", a.Name)
+			}
 		}
 		a.term = t
 		if !a.Lemma {
